@@ -42,6 +42,9 @@ func (c *validateAwarePostProcessors) PostProcessProperties(properties []*compon
 		if ts, ok := prop.Args().Find(ArgValidate); ok {
 			var p = prop.Type
 			if p.Kind() == reflect.Pointer {
+				if prop.Value.IsNil() {
+					continue
+				}
 				p = p.Elem()
 			}
 			if p.Kind() == reflect.Struct {
